@@ -842,3 +842,20 @@ Theorem reviewed_sites_are_dimensionful :
   Forall (fun s => match s_dim s with Some d => d <> 0%Z | None => False end) reviewed_sites.
 Proof. repeat constructor; discriminate. Qed.
 Print Assumptions reviewed_sites_are_dimensionful.
+
+(** Every input of every entry point of WallGoManager (setupThermodynamicsHydrodynamics:
+    phaseInfo, veffDerivativeScales; solveWall/setupWallSolver: wallSolverSettings; buildGrid,
+    buildEOM: the lengths in units of 1/Tnucl; ...) is consumed on EVERY call, not only when
+    some earlier state allows it -- otherwise unit-carrying inputs of an earlier call (variation
+    scales, hence finite-difference steps, tracer step and margins) would survive a change of
+    units of the same objects.  [flows] is extracted from the AST of manager.py on this run. *)
+Theorem every_manager_input_is_consumed_on_every_call :
+  Forall (fun f => f_always f = true) flows.
+Proof. repeat constructor. Qed.
+Print Assumptions every_manager_input_is_consumed_on_every_call.
+
+Theorem manager_inputs_are_recorded : (List.length flows >= 10)%nat /\
+  existsb (fun f => (String.eqb (f_fun f) "setupThermodynamicsHydrodynamics" &&
+                     String.eqb (f_param f) "veffDerivativeScales")%bool) flows = true.
+Proof. split; [vm_compute; repeat constructor | vm_compute; reflexivity]. Qed.
+Print Assumptions manager_inputs_are_recorded.
